@@ -39,7 +39,11 @@ RULE = ('interp (check): d in 1..3, axis lengths 1..6, uniform / non-uniform dya
         'interp cases use almost-uniform nodes (relative perturbation 1e-4, 1e-6, 1e-9) and/or grids scaled by 1e-3, '
         '1e-6, 1e-9, 1e6 with points at nodes, next to midpoints (exact ties excluded) and next to cell edges. shapes '
         '(hcheck): every factory called with np.zeros(shape) for all shapes of rank 0-2 with entries 0..4 (and some '
-        'rank 3) on 1-3 dimensional grids -> scalar / result shape / ValueError. Non-trivial = values not all equal; '
+        'rank 3) on 1-3 dimensional grids -> scalar / result shape / ValueError. styles (scheck): 16 callable '
+        'signature styles (positional, lambda, **kwargs, default argument, dual-use, in-place-only, objects with '
+        '__call__, point-by-point via vectorize) x 7 entry points (space.element with kwargs, point_collocation on '
+        'sparse mesh / dense mesh / point array, out-of-place and into garbage-prefilled out arrays) x return kind '
+        '(scalar, broadcastable, full). Interpolators are also called on dense mesh grids. Non-trivial = values not all equal; '
         'distinct by the full input tuple.')
 ASSUMPTIONS = [
     'exact arithmetic: coordinates/values are small integers or dyadic rationals so float operations are exact '
